@@ -8,14 +8,18 @@ MANIFEST = {
             "every stack index type (any rank), every image over a linearly ordered field: single bright pixel -> its (x, y) for "
             "centre of gravity (any threshold < 1) and brightest pixel (k >= 2); invariance under multiplication by c > 0; "
             "exact equivariance under any circular shift that keeps the content inside the frame (with thresholds); N-D path = "
-            "2-D path frame by frame for every centroider; quad-cell sign under mirroring; the FFT pipeline of cross_correlate is the "
+            "2-D path frame by frame for every centroider, with the N-D path modelled on ONE flat C-ordered buffer (axis reductions, "
+            "thres[..., None, None] / numpy.indices broadcasting, reshape-sort-[..., -k], .sum(-2), (im.T - im.min((1,2))).T as index "
+            "arithmetic: flat_eq_frames_*); brightest-pixel statements are about the code for 1 <= k <= ny*nx; quad-cell sign under mirroring; the FFT pipeline of cross_correlate is the "
             "circular cross-correlation (any field with roots of unity) and, over C on real non-negative images, the correlation "
             "centroid of a frame displaced by s from its reference is exactly (nx//2 + sx, ny//2 + sy) for every padding and "
             "threshold < 1 when the correlation does not wrap around the padded frame; stated on the un-padded inputs "
             "(corr_displacement_of_roll): im = numpy.roll(ref, s), content of ref in a box that stays inside the frame, lags "
             "s ± (w-1) inside [-(P//2), P - P//2 - 1] (automatic for padding >= 2). The model is tied to the code by "
             "running the same Lean definitions at binary64 against the real functions (bit-exact on integer images with dyadic "
-            "thresholds, 1e-9 on the FFT correlation); a direct oracle evaluates every clause on the real code.",
+            "thresholds, 1e-9 on the FFT correlation; the real code gets the values as float64, uint8, uint16, int32 or float32 arrays); a "
+            "direct oracle evaluates every clause on the real code, over those dtypes, scale factors 1e-16..1e16, single pixels of "
+            "value 1e-20..1e12 and non-C memory layouts.",
     "note": "Trusted: Lean kernel + standard axioms; numpy.fft2/ifft2 = nested naive DFT sums (checked by the correlation "
             "correspondence to 1e-9); numpy.sort = ascending sort; binary64 rounding not modelled. Reading of the property: 'all "
             "centroiders' in the scale/shift clauses = centre_of_gravity, brightest_pixel, correlation_centroid (quadCell returns an "
@@ -34,8 +38,16 @@ REQUIRED = ["cog_single_pixel", "bp_single_pixel", "cog_scale_invariant", "cog_s
             "corr_hdisp_of_roll", "corr_hnowrap_of_box", "corr_displacement_of_box", "corr_displacement_of_roll",
             "corr_displacement_of_roll_pad_ge_two", "corr_displacement_of_roll_nonneg", "corr_displacement_of_roll_stack",
             "stack_eq_frames_cog", "stack_eq_frames_bp", "stack_eq_frames_quad", "stack_eq_frames_corr",
+            "flat_eq_frames_cog", "flat_eq_frames_bp", "flat_eq_frames_quad", "flat_eq_frames_corr",
+            "kthLargest_outside_domain", "bp_scale_invariant_in_domain",
             "quad_mirror_sign", "quad_scale_linear", "pad_offset_even", "pad_offset_pinned_odd_fails", "cogN_pinned_fails"]
 TOL = 1e-9
+TOL32 = 1e-4          # binary32 images: c*img is rounded to 24 bits before the centroider sees it (observed <= 4.8e-7 quick seeds 0-12, 7.1e-7 thorough)
+DTYPES = ["float64", "float64", "uint8", "uint16", "int32", "float32"]
+INT_MAX = {"uint8": 255, "uint16": 65535, "int32": 10 ** 9}
+# positive constants of the scale clause: 1e-16 ... 1e16 (faint and bright images), plus in-dtype integer factors
+SCALES = [2.0, 0.5, 3.0, 1.7, 1000.0, 1e-3, 2.5e-7, 1e-6, 1e-12, 1e-16, 1e6, 1e12, 1e16]
+SINGLE_VALUES = [1, 3, 31, 0.125, 1000.0, 1e-6, 1e-20, 5e-12, 1e-12, 2.5e-7, 1e6, 1e12]
 THRESHOLDS = [0.0, 0.125, 0.25, 0.375, 0.5, 0.625, 0.75, 0.875]
 
 
@@ -87,11 +99,16 @@ def gen_content(rng, nprng, ny, nx, room=1):
 
 
 def bp_fraction(rng, n):
-    """a fraction and the pixel count k >= 2 it selects (computed the way the documentation says: round(f * n))"""
+    """a fraction and the pixel count k >= 2 it selects (computed the way the documentation says: round(f * n));
+    half of the draws are exact k/n, the others any real fraction in (1.5/n, 1]"""
     for _ in range(100):
-        k = rng.randint(2, n)
-        f = k / float(n)
-        if int(round(f * n)) == k:
+        if rng.random() < 0.5:
+            k = rng.randint(2, n)
+            f = k / float(n)
+        else:
+            f = rng.uniform(1.5 / n, 1.0)
+            k = int(round(f * n))
+        if int(round(f * n)) == k and 2 <= k <= n:
             return f, k
     return 1.0, n
 
@@ -128,6 +145,30 @@ def call(fn, *args, **kw):
         return None, "%s: %s" % (type(ex).__name__, ex)
 
 
+def call_raw(fn, *args, **kw):
+    """run the real function on the arrays AS GIVEN (memory layout preserved: no copy); every caller builds the arrays
+    fresh, and argument purity is checked separately"""
+    try:
+        return numpy.asarray(fn(*args, **kw), dtype=float), None
+    except Exception as ex:
+        return None, "%s: %s" % (type(ex).__name__, ex)
+
+
+def layouts(a):
+    """the same pixel values (same shape, same dtype) in other memory layouts: [(name, array)]"""
+    out = [("fortran", numpy.asfortranarray(a)),
+           ("T-view", numpy.ascontiguousarray(numpy.swapaxes(a, -1, -2)).swapaxes(-1, -2)),
+           ("reversed", a[..., ::-1, ::-1].copy()[..., ::-1, ::-1])]
+    big = numpy.zeros(a.shape[:-2] + (2 * a.shape[-2], 3 * a.shape[-1]), dtype=a.dtype)
+    big[..., ::2, ::3] = a
+    out.append(("strided", big[..., ::2, ::3]))
+    if a.ndim > 2:
+        out.append(("lead-last", numpy.moveaxis(numpy.ascontiguousarray(numpy.moveaxis(a, 0, -1)), -1, 0)))
+    for nm, v in out:
+        assert v.shape == a.shape and v.dtype == a.dtype and numpy.array_equal(v, a), nm
+    return out
+
+
 # --------------------------------------------------------------------------- correspondence
 def correspondence(chk, quick):
     C = _C()
@@ -147,30 +188,33 @@ def correspondence(chk, quick):
         t = rng.choice(THRESHOLDS)
         mn = rng.choice([0.0, 0.0, 0.5, 2.0, 5.25])
         img = gen_image(rng, nprng, ny, nx)
+        # the real code gets the image in one of the detector/array dtypes (integer values <= 34 are exact in all of them; the
+        # thresholds k/8, the floors and every intermediate are exact in binary32 too); the model gets the same values
+        dt = rng.choice(DTYPES)
         # ---- centre_of_gravity, 2-D path
-        r, e = call(C.centre_of_gravity, img, threshold=t, min_threshold=mn)
+        r, e = call(C.centre_of_gravity, img.astype(dt), threshold=t, min_threshold=mn)
         add("C15 cog2 %d %d %s %s %s" % (ny, nx, common.f2h(t), common.f2h(mn), hexes(img)), r, e, (),
-            ("cog2", ny, nx, t, mn))
+            ("cog2", ny, nx, t, mn, dt))
         # ---- N-D path, rank 3 and 4
         lead = rng.choice([(1,), (2,), (3,), (4,), (2, 2), (2, 3), (3, 1)])
         st = gen_stack(rng, nprng, lead, ny, nx)
         nf = int(numpy.prod(lead))
-        r, e = call(C.centre_of_gravity, st, threshold=t, min_threshold=mn)
+        r, e = call(C.centre_of_gravity, st.astype(dt), threshold=t, min_threshold=mn)
         add("C15 cogN %d %d %d %s %s %s" % (nf, ny, nx, common.f2h(t), common.f2h(mn), hexes(st)), r, e, lead,
-            ("cogN", ny, nx, t, mn, lead))
+            ("cogN", ny, nx, t, mn, lead, dt))
         # ---- brightest pixel
         f, k = bp_fraction(rng, ny * nx)
-        r, e = call(C.brightest_pixel, img, f)
-        add("C15 bp2 %d %d %d %s" % (ny, nx, k, hexes(img)), r, e, (), ("bp2", ny, nx, k))
-        r, e = call(C.brightest_pixel, st, f)
-        add("C15 bpN %d %d %d %d %s" % (nf, ny, nx, k, hexes(st)), r, e, lead, ("bpN", ny, nx, k, lead))
+        r, e = call(C.brightest_pixel, img.astype(dt), f)
+        add("C15 bp2 %d %d %d %s" % (ny, nx, k, hexes(img)), r, e, (), ("bp2", ny, nx, k, dt))
+        r, e = call(C.brightest_pixel, st.astype(dt), f)
+        add("C15 bpN %d %d %d %d %s" % (nf, ny, nx, k, hexes(st)), r, e, lead, ("bpN", ny, nx, k, lead, dt))
         # ---- quad cell (2x2 is the intended use; the code reads columns/rows 0 and 1 of any frame)
         qy, qx = (2, 2) if it % 3 else (rng.randint(2, 5), rng.randint(2, 5))
         qlead = rng.choice([(), (1,), (3,), (2, 2)])
         q = nprng.integers(0, 32, size=qlead + (qy, qx)).astype(float)
-        r, e = call(C.quadCell, q)
+        r, e = call(C.quadCell, q.astype(dt))
         add("C15 quad %d %d %d %s" % (int(numpy.prod(qlead)) if qlead else 1, qy, qx, hexes(q)), r, e, qlead,
-            ("quad", qy, qx, qlead))
+            ("quad", qy, qx, qlead, dt))
     # ---- FFT correlation (tolerance: FFT vs naive DFT, cos/sin tables, hypot)
     ncorr = 30 if quick else 300
     for it in range(ncorr):
@@ -188,7 +232,7 @@ def correspondence(chk, quick):
             ("corr", ny, nx, pad, t, nf), tol=float(max(ny, nx) * pad))
         if it % 2 == 0:                                       # the 2-D entry of correlation_centroid
             r, e = call(C.correlation_centroid, st[0], y, threshold=t, padding=pad)
-            add("C15 corr 1 %d %d %d %s %s %s" % (ny, nx, pad, common.f2h(t), hexes(st[0]), hexes(y)), r, e, (1,),
+            add("C15 corr2d %d %d %d %s %s %s" % (ny, nx, pad, common.f2h(t), hexes(st[0]), hexes(y)), r, e, (1,),
                 ("corr2d", ny, nx, pad, t), tol=float(max(ny, nx) * pad))
     ans = common.run_driver(lines, "C15")
     nbad = 0
@@ -232,42 +276,65 @@ def oracle(chk, quick):
     def bad(key, what, **rep):
         chk.fail(key, what, rep)
 
-    def near(a, b):
-        return a is not None and b is not None and a.shape == b.shape and bool(numpy.all(numpy.abs(a - b) <= TOL * (1 + numpy.abs(b))))
+    worst = {}          # comparison kind -> largest observed |error| / (1 + |expected|) among the comparisons that passed
+
+    def near(a, b, tol=TOL, kind=None, nan_ok=False):
+        """nan_ok: for comparisons of two CALLS on the same pixel values (stack vs frame alone, one layout vs another): where
+        the centroid is undefined (a constant frame is all zero after correlation_centroid removed its minimum: 0/0) both
+        calls return NaN, and NaN in the same positions is the same answer"""
+        if a is None or b is None or a.shape != b.shape:
+            return False
+        with numpy.errstate(invalid="ignore"):
+            d = numpy.abs(a - b) / (1 + numpy.abs(b))
+        if nan_ok:
+            d = numpy.where(numpy.isnan(a) & numpy.isnan(b), 0.0, d)
+        ok = bool(numpy.all(d <= tol))                            # a NaN compares False
+        if ok and kind and d.size:
+            worst[kind] = max(worst.get(kind, 0.0), float(d.max()))
+        return ok
 
     def rk(lead):
         return "2d" if not lead else "rank%d" % (len(lead) + 2)
+
+    def dk(dt):                                                   # key suffix: binary64 keeps the keys of the earlier versions
+        return "" if dt == "float64" else ":" + dt
+
+    def tl(dt):
+        return TOL32 if dt == "float32" else TOL
 
     centroiders = {
         "centre_of_gravity": lambda a, p: C.centre_of_gravity(a, threshold=p["t"]),
         "brightest_pixel": lambda a, p: C.brightest_pixel(a, p["f"]),
     }
 
-    # ---------------- 1. single bright pixel
+    # ---------------- 1. single bright pixel (any array dtype; values from 1e-20 to 1e12: a centroid does not depend on how
+    # faint or bright the pixel is)
     for it in range(100 if quick else 1500):
         ny, nx = rng.randint(1, nmax), rng.randint(1, nmax)
         if ny * nx < 2:
             ny = 2
-        y0, x0, v = rng.randrange(ny), rng.randrange(nx), float(rng.choice([1, 3, 31, 0.125, 1000.0, 1e-6]))
-        img = numpy.zeros((ny, nx))
+        dt = rng.choice(DTYPES)
+        y0, x0 = rng.randrange(ny), rng.randrange(nx)
+        v = rng.choice([1, 3, 31, 200, INT_MAX[dt]]) if dt in INT_MAX else float(rng.choice(SINGLE_VALUES))
+        img = numpy.zeros((ny, nx), dtype=dt)
         img[y0, x0] = v
         chk.oracle_cases += 1
-        chk.count("oracle:single")
-        chk.case(("single", ny, nx, y0, x0, v), sample={"clause": "single pixel", "shape": [ny, nx], "at": [y0, x0], "v": v} if it < 1 else None)
+        chk.count("oracle:single" + dk(dt))
+        chk.case(("single", ny, nx, y0, x0, v, dt), sample={"clause": "single pixel", "shape": [ny, nx], "at": [y0, x0], "v": v, "dtype": dt} if it < 1 else None)
         want = numpy.array([float(x0), float(y0)])
         for lead in ((), (1,), (2,)):
             a = numpy.broadcast_to(img, lead + img.shape).copy()
             w = want.reshape((2,) + (1,) * len(lead)) * numpy.ones((2,) + lead)
             for t in rng.sample(THRESHOLDS, 3):
                 r, e = call(C.centre_of_gravity, a, threshold=t)
-                if not near(r, w):
-                    bad("single:centre_of_gravity:" + rk(lead), "centre_of_gravity(single pixel %r at (y=%d,x=%d) of %dx%d, threshold=%r, %s) = %s, expected (%d,%d)"
-                        % (v, y0, x0, ny, nx, t, rk(lead), e or r.ravel().tolist(), x0, y0), shape=[ny, nx], y0=y0, x0=x0, v=v, threshold=t, lead=lead)
+                if not near(r, w, kind="single"):
+                    bad("single:centre_of_gravity:" + rk(lead) + dk(dt), "centre_of_gravity(single pixel %r at (y=%d,x=%d) of %dx%d %s, threshold=%r, %s) = %s, expected (%d,%d)"
+                        % (v, y0, x0, ny, nx, dt, t, rk(lead), e or r.ravel().tolist(), x0, y0), shape=[ny, nx], y0=y0, x0=x0, v=v, threshold=t, lead=lead, dtype=dt)
             f, k = bp_fraction(rng, ny * nx)
             r, e = call(C.brightest_pixel, a, f)
-            if not near(r, w):
-                bad("single:brightest_pixel:" + rk(lead), "brightest_pixel(single pixel %r at (y=%d,x=%d) of %dx%d, fraction %r = %d px, %s) = %s, expected (%d,%d)"
-                    % (v, y0, x0, ny, nx, f, k, rk(lead), e or r.ravel().tolist(), x0, y0), shape=[ny, nx], y0=y0, x0=x0, v=v, fraction=f, lead=lead)
+            if not near(r, w, kind="single"):
+                bad("single:brightest_pixel:" + rk(lead) + dk(dt), "brightest_pixel(single pixel %r at (y=%d,x=%d) of %dx%d %s, fraction %r = %d px, %s) = %s, expected (%d,%d)"
+                    % (v, y0, x0, ny, nx, dt, f, k, rk(lead), e or r.ravel().tolist(), x0, y0), shape=[ny, nx], y0=y0, x0=x0, v=v, fraction=f, lead=lead, dtype=dt)
 
     # ---------------- 2-4. scale, shift, stack = frames, purity of the arguments
     for it in range(150 if quick else 2500):
@@ -275,37 +342,43 @@ def oracle(chk, quick):
         lead = rng.choice([(), (1,), (2,), (3,), (4,), (2, 2), (3, 2)])
         t = rng.choice(THRESHOLDS)
         f, k = bp_fraction(rng, ny * nx)
+        dt = rng.choice(DTYPES)                 # detector frames are unsigned integers; pixel values <= 31 fit every dtype
         for _ in range(50):
             st = gen_stack(rng, nprng, lead, ny, nx)
             if bp_defined(st, k):
                 break
         else:
             continue
+        st = st.astype(dt)
         par = {"t": t, "f": f}
         chk.oracle_cases += 1
-        chk.count("oracle:stack:" + rk(lead))
-        chk.case(("stack", ny, nx, lead, t, k), sample={"clause": "scale/stack", "shape": list(lead) + [ny, nx], "threshold": t, "fraction": f} if it < 2 else None)
-        c = rng.choice([2.0, 0.5, 3.0, 1.7, 1000.0, 1e-3])
+        chk.count("oracle:stack:" + rk(lead) + dk(dt))
+        chk.case(("stack", ny, nx, lead, t, k, dt), sample={"clause": "scale/stack", "shape": list(lead) + [ny, nx], "threshold": t, "fraction": f, "dtype": dt} if it < 2 else None)
+        # two positive constants: a real factor from 1e-16 to 1e16 (the product is binary64, or binary32 for a binary32 image) and
+        # a small integer factor with the product kept in the image's own dtype (31*7 < 255)
+        factors = [rng.choice(SCALES), rng.choice([2, 3, 7])]
         for name, fn in centroiders.items():
             thr = ("thr" if t else "nothr") if name == "centre_of_gravity" else "frac"
             base, e = call(fn, st, par)
             if base is None or base.shape != (2,) + lead or not numpy.all(numpy.isfinite(base)):
-                bad("stack:%s:%s:%s" % (name, thr, rk(lead)), "%s on a %s stack of shape %s (threshold %r, fraction %r) gives %s instead of a finite (2,)+%s array"
-                    % (name, rk(lead), st.shape, t, f, e or (base.shape if base.shape != (2,) + lead else "non-finite values"), lead),
-                    fn=name, img=st.tolist(), threshold=t, fraction=f)
+                bad("stack:%s:%s:%s" % (name, thr, rk(lead)) + dk(dt), "%s on a %s %s stack of shape %s (threshold %r, fraction %r) gives %s instead of a finite (2,)+%s array"
+                    % (name, rk(lead), dt, st.shape, t, f, e or (base.shape if base.shape != (2,) + lead else "non-finite values"), lead),
+                    fn=name, img=st.tolist(), threshold=t, fraction=f, dtype=dt)
                 continue
             # scale invariance (min_threshold = 0)
-            sc, e = call(fn, c * st, par)
-            if not near(sc, base):
-                bad("scale:%s:%s" % (name, rk(lead)), "%s(%r*img) = %s differs from %s(img) = %s (shape %s, threshold %r, fraction %r)"
-                    % (name, c, e or sc.ravel()[:4].tolist(), name, base.ravel()[:4].tolist(), st.shape, t, f), fn=name, img=st.tolist(), c=c, threshold=t, fraction=f)
+            for c in factors:
+                scaled = c * st
+                sc, e = call(fn, scaled, par)
+                if not near(sc, base, tl(dt), kind="scale" + dk(str(scaled.dtype))):
+                    bad("scale:%s:%s" % (name, rk(lead)) + dk(dt), "%s(%r*img) = %s differs from %s(img) = %s (shape %s, %s, threshold %r, fraction %r)"
+                        % (name, c, e or sc.ravel()[:4].tolist(), name, base.ravel()[:4].tolist(), st.shape, dt, t, f), fn=name, img=st.tolist(), c=c, threshold=t, fraction=f, dtype=dt)
             # a stack gives the same answers as each frame processed alone
             if lead:
                 for idx in numpy.ndindex(*lead):
                     one, e = call(fn, st[idx], par)
-                    if not near(one, base[(slice(None),) + idx]):
-                        bad("stack:%s:%s:%s" % (name, thr, rk(lead)), "%s of a %s stack, frame %s: %s; the same frame alone: %s (threshold %r, fraction %r)"
-                            % (name, rk(lead), idx, base[(slice(None),) + idx].tolist(), e or one.tolist(), t, f), fn=name, img=st.tolist(), frame=list(idx), threshold=t, fraction=f)
+                    if not near(one, base[(slice(None),) + idx], kind="stack", nan_ok=True):
+                        bad("stack:%s:%s:%s" % (name, thr, rk(lead)) + dk(dt), "%s of a %s %s stack, frame %s: %s; the same frame alone: %s (threshold %r, fraction %r)"
+                            % (name, rk(lead), dt, idx, base[(slice(None),) + idx].tolist(), e or one.tolist(), t, f), fn=name, img=st.tolist(), frame=list(idx), threshold=t, fraction=f, dtype=dt)
                         break
             # the caller's array is left alone (its content feeds the next call: frames after stack)
             keep = st.copy()
@@ -313,9 +386,9 @@ def oracle(chk, quick):
                 fn(keep, par)
             except Exception:
                 pass
-            if keep.shape != st.shape or not numpy.array_equal(keep, st):
-                bad("inplace:%s:%s:%s" % (name, thr if name == "centre_of_gravity" else "frac", "2d" if not lead else "stack"), "%s modified its argument (shape %s, threshold %r, fraction %r): %d pixels changed"
-                    % (name, st.shape, t, f, int((keep != st).sum()) if keep.shape == st.shape else -1), fn=name, img=st.tolist(), threshold=t, fraction=f)
+            if keep.shape != st.shape or keep.dtype != st.dtype or not numpy.array_equal(keep, st):
+                bad("inplace:%s:%s:%s" % (name, thr if name == "centre_of_gravity" else "frac", "2d" if not lead else "stack"), "%s modified its argument (shape %s, %s, threshold %r, fraction %r): %d pixels changed"
+                    % (name, st.shape, dt, t, f, int((keep != st).sum()) if keep.shape == st.shape else -1), fn=name, img=st.tolist(), threshold=t, fraction=f, dtype=dt)
         # no state leaks between calls: the same input gives the same answer after other inputs have been processed
         for name, fn in centroiders.items():
             first, _ = call(fn, st, par)
@@ -323,31 +396,34 @@ def oracle(chk, quick):
             again, e = call(fn, st, par)
             if first is not None and not same_bits(first, again if again is not None else numpy.array([])):
                 bad("history:%s:%s" % (name, rk(lead)), "%s gives a different answer for the same input after another input was processed: %s then %s"
-                    % (name, first.ravel()[:4].tolist(), e or again.ravel()[:4].tolist()), fn=name, img=st.tolist(), threshold=t, fraction=f)
-        # quad cell on 2x2 frames: stack = frames, mirroring, purity
-        q = nprng.integers(0, 32, size=lead + (2, 2)).astype(float)
+                    % (name, first.ravel()[:4].tolist(), e or again.ravel()[:4].tolist()), fn=name, img=st.tolist(), threshold=t, fraction=f, dtype=dt)
+        # quad cell on 2x2 frames: stack = frames, mirroring, purity.  qf = the pixel values in binary64 (the expected signal is
+        # computed from them, never from an unsigned array), q = the same values in the drawn dtype
+        qf = nprng.integers(0, 32, size=lead + (2, 2)).astype(float)
+        q = qf.astype(dt)
         qb, e = call(C.quadCell, q)
         if qb is None or qb.shape != (2,) + lead:
-            bad("stack:quadCell:" + rk(lead), "quadCell on shape %s gives %s" % (q.shape, e or qb.shape), img=q.tolist())
+            bad("stack:quadCell:" + rk(lead) + dk(dt), "quadCell on shape %s %s gives %s" % (q.shape, dt, e or qb.shape), img=qf.tolist(), dtype=dt)
         else:
             for idx in numpy.ndindex(*lead):
                 one, e = call(C.quadCell, q[idx])
-                if not near(one, qb[(slice(None),) + idx]):
-                    bad("stack:quadCell:" + rk(lead), "quadCell of a stack differs from the frame alone at %s" % (idx,), img=q.tolist(), frame=list(idx))
+                if not near(one, qb[(slice(None),) + idx], nan_ok=True):
+                    bad("stack:quadCell:" + rk(lead) + dk(dt), "quadCell of a %s stack differs from the frame alone at %s: %s vs %s"
+                        % (dt, idx, qb[(slice(None),) + idx].tolist(), e or one.tolist()), img=qf.tolist(), frame=list(idx), dtype=dt)
                     break
-            mx, _ = call(C.quadCell, q[..., :, ::-1])
-            my, _ = call(C.quadCell, q[..., ::-1, :])
+            mx, _ = call_raw(C.quadCell, q[..., :, ::-1])           # mirrored views (negative strides), as a caller would write them
+            my, _ = call_raw(C.quadCell, q[..., ::-1, :])
             if not (near(mx, qb * numpy.array([-1.0, 1.0]).reshape((2,) + (1,) * len(lead)))
                     and near(my, qb * numpy.array([1.0, -1.0]).reshape((2,) + (1,) * len(lead)))):
-                bad("quad:mirror:" + rk(lead), "quadCell does not change sign under mirroring: img %s -> %s, x-mirrored -> %s, y-mirrored -> %s"
-                    % (q.tolist(), qb.tolist(), None if mx is None else mx.tolist(), None if my is None else my.tolist()), img=q.tolist())
+                bad("quad:mirror:" + rk(lead) + dk(dt), "quadCell does not change sign under mirroring: %s img %s -> %s, x-mirrored -> %s, y-mirrored -> %s"
+                    % (dt, qf.tolist(), qb.tolist(), None if mx is None else mx.tolist(), None if my is None else my.tolist()), img=qf.tolist(), dtype=dt)
             # the signal is (right - left, bottom - top) column/row sums
-            if not near(qb, numpy.array([q[..., :, 1].sum(-1) - q[..., :, 0].sum(-1), q[..., 1, :].sum(-1) - q[..., 0, :].sum(-1)])):
-                bad("quad:definition:" + rk(lead), "quadCell is not (right-left, bottom-top) on %s: %s" % (q.tolist(), qb.tolist()), img=q.tolist())
+            if not near(qb, numpy.array([qf[..., :, 1].sum(-1) - qf[..., :, 0].sum(-1), qf[..., 1, :].sum(-1) - qf[..., 0, :].sum(-1)])):
+                bad("quad:definition:" + rk(lead) + dk(dt), "quadCell is not (right-left, bottom-top) on the %s image %s: %s" % (dt, qf.tolist(), qb.tolist()), img=qf.tolist(), dtype=dt)
             keep = q.copy()
             C.quadCell(keep)
-            if not numpy.array_equal(keep, q):
-                bad("inplace:quadCell", "quadCell modified its argument", img=q.tolist())
+            if keep.dtype != q.dtype or not numpy.array_equal(keep, q):
+                bad("inplace:quadCell", "quadCell modified its argument", img=qf.tolist(), dtype=dt)
 
     # ---------------- 3. shift equivariance (content stays inside the frame; numpy.roll moves it)
     for it in range(150 if quick else 2500):
@@ -364,10 +440,12 @@ def oracle(chk, quick):
             if int(round(f * ny * nx)) != 2 or not bp_defined(img, 2):
                 continue
         par = {"t": t, "f": f}
+        dt = rng.choice(DTYPES)
+        img = img.astype(dt)
         moved = numpy.roll(img, (ky, kx), axis=(0, 1))
         chk.oracle_cases += 1
-        chk.count("oracle:shift")
-        chk.case(("shift", ny, nx, ky, kx, t, k), sample={"clause": "shift", "shape": [ny, nx], "box": [y0, y1, x0, x1], "shift": [ky, kx], "threshold": t} if it < 2 else None)
+        chk.count("oracle:shift" + dk(dt))
+        chk.case(("shift", ny, nx, ky, kx, t, k, dt), sample={"clause": "shift", "shape": [ny, nx], "box": [y0, y1, x0, x1], "shift": [ky, kx], "threshold": t} if it < 2 else None)
         for name, fn in centroiders.items():
             for lead in ((), (2,)):
                 a = numpy.broadcast_to(img, lead + img.shape).copy()
@@ -375,14 +453,16 @@ def oracle(chk, quick):
                 r0, e0 = call(fn, a, par)
                 r1, e1 = call(fn, b, par)
                 d = numpy.array([float(kx), float(ky)]).reshape((2,) + (1,) * len(lead))
-                if r0 is None or r1 is None or not numpy.all(numpy.isfinite(r0)) or not near(r1, r0 + d):
-                    bad("shift:%s:%s" % (name, rk(lead)), "%s: content shifted by (dy=%d,dx=%d) inside a %dx%d frame moves the centroid from %s to %s (threshold %r, fraction %r)"
-                        % (name, ky, kx, ny, nx, e0 or r0.ravel().tolist(), e1 or r1.ravel().tolist(), t, f), fn=name, img=img.tolist(), shift=[ky, kx], threshold=t, fraction=f, lead=lead)
+                if r0 is None or r1 is None or not numpy.all(numpy.isfinite(r0)) or not near(r1, r0 + d, kind="shift"):
+                    bad("shift:%s:%s" % (name, rk(lead)) + dk(dt), "%s: content shifted by (dy=%d,dx=%d) inside a %dx%d %s frame moves the centroid from %s to %s (threshold %r, fraction %r)"
+                        % (name, ky, kx, ny, nx, dt, e0 or r0.ravel().tolist(), e1 or r1.ravel().tolist(), t, f), fn=name, img=img.tolist(), shift=[ky, kx], threshold=t, fraction=f, lead=lead, dtype=dt)
 
     # ---------------- 5. correlation centroid: displaced by s from the array centre n//2, any padding; scale; stack; purity
     for it in range(120 if quick else 2000):
         ny, nx = rng.randint(2, nmax), rng.randint(2, nmax)
         pad = rng.choice([1, 2, 3, 4] if quick else [1, 2, 3, 4, 5, 6])
+        if it < 4:                      # always some elongated frames with padding >= 2 (the two axes have different padding offsets)
+            (ny, nx), pad = [(12, 20), (20, 12), (3, 16), (15, 4)][it], 2 + it % 2
         py, px = ny * pad, nx * pad
         # content box of extent (wy, wx) and displacement (sy, sx) whose correlation lags s ± (w-1) fit the shifted
         # window [-(P//2), P - P//2 - 1] of the padded correlation, with the displaced content still inside the frame
@@ -398,27 +478,36 @@ def oracle(chk, quick):
         ref[y0:y0 + wy, x0:x0 + wx] += nprng.integers(1, 32, size=(wy, wx))
         if bg and wy * wx == ny * nx:
             continue
+        # pixel values <= 36 in binary64 or an integer dtype (numpy.fft transforms binary32 images in single precision, whose
+        # 1e-7 noise floor over the whole padded frame is not a displacement error: binary32 is left to the other clauses)
+        cdt = rng.choice(["float64", "float64", "uint8", "uint16", "int32"])
+        ref = ref.astype(cdt)
         im = numpy.roll(ref, (sy, sx), axis=(0, 1))
         t = rng.choice([0.0, 0.0, 0.25, 0.5])
         want = numpy.array([[nx // 2 + sx], [ny // 2 + sy]], dtype=float)
         cls = "%s-n:%s-pad" % ("odd" if (ny % 2 or nx % 2) else "even", "even" if pad % 2 == 0 else "odd")
         chk.oracle_cases += 1
-        chk.count("oracle:corr:" + cls)
-        chk.case(("corr", ny, nx, pad, sy, sx, t, bg), sample={"clause": "correlation displacement", "shape": [ny, nx], "padding": pad, "s": [sy, sx], "threshold": t} if it < 2 else None)
+        chk.count("oracle:corr:" + cls + dk(cdt))
+        chk.count("oracle:corr:" + ("square" if ny == nx else "non-square") + (":pad>=2" if pad >= 2 else ":pad1"))
+        chk.case(("corr", ny, nx, pad, sy, sx, t, bg, cdt), sample={"clause": "correlation displacement", "shape": [ny, nx], "padding": pad, "s": [sy, sx], "threshold": t} if it < 2 else None)
         r, e = call(C.correlation_centroid, im[None], ref, threshold=t, padding=pad)
-        if not near(r, want):
-            bad("corr:displacement:" + cls, "correlation_centroid of a %dx%d image displaced by (dy=%d,dx=%d) from its reference, padding=%d, threshold=%r: %s, expected centre (%d,%d) + s = %s"
-                % (ny, nx, sy, sx, pad, t, e or r.ravel().tolist(), nx // 2, ny // 2, want.ravel().tolist()), ref=ref.tolist(), s=[sy, sx], padding=pad, threshold=t)
+        if not near(r, want, kind="corr"):
+            bad("corr:displacement:" + cls, "correlation_centroid of a %dx%d %s image displaced by (dy=%d,dx=%d) from its reference, padding=%d, threshold=%r: %s, expected centre (%d,%d) + s = %s"
+                % (ny, nx, cdt, sy, sx, pad, t, e or r.ravel().tolist(), nx // 2, ny // 2, want.ravel().tolist()), ref=ref.tolist(), s=[sy, sx], padding=pad, threshold=t, dtype=cdt)
         if r is not None:
             r2, e = call(C.correlation_centroid, im, ref, threshold=t, padding=pad)          # the 2-D entry = a one-frame stack
-            if not near(r2, r):
+            if not near(r2, r, nan_ok=True):
                 bad("stack:correlation_centroid:2d", "correlation_centroid of a single 2-D image %s differs from the one-frame stack %s"
                     % (e or r2.ravel().tolist(), r.ravel().tolist()), ref=ref.tolist(), s=[sy, sx], padding=pad, threshold=t)
-            c = rng.choice([2.0, 0.5, 3.0, 1000.0])
+            c = rng.choice(SCALES)              # the correlation surface scales as c (c*c when both arrays are scaled)
             r3, e = call(C.correlation_centroid, c * im[None], ref, threshold=t, padding=pad)
-            if not near(r3, r):
+            if not near(r3, r, kind="corr-scale", nan_ok=True):
                 bad("scale:correlation_centroid", "correlation_centroid(%r*im) = %s differs from %s" % (c, e or r3.ravel().tolist(), r.ravel().tolist()),
-                    ref=ref.tolist(), s=[sy, sx], padding=pad, threshold=t, c=c)
+                    ref=ref.tolist(), s=[sy, sx], padding=pad, threshold=t, c=c, dtype=cdt)
+            r5, e = call(C.correlation_centroid, c * im[None], c * ref, threshold=t, padding=pad)
+            if not near(r5, r, kind="corr-scale", nan_ok=True):
+                bad("scale:correlation_centroid:both", "correlation_centroid(%r*im, %r*ref) = %s differs from correlation_centroid(im, ref) = %s (%dx%d, padding %d, threshold %r)"
+                    % (c, c, e or r5.ravel().tolist(), r.ravel().tolist(), ny, nx, pad, t), ref=ref.tolist(), s=[sy, sx], padding=pad, threshold=t, c=c, dtype=cdt)
         # a stack of general frames against one reference = each frame alone
         nf = rng.randint(2, 4)
         st = gen_stack(rng, nprng, (nf,), ny, nx)
@@ -427,7 +516,7 @@ def oracle(chk, quick):
         ok = rs is not None and rs.shape == (2, nf)
         for i in range(nf):
             one, e1 = call(C.correlation_centroid, st[i], g, threshold=t, padding=pad)
-            ok = ok and one is not None and near(one.reshape(2), rs[:, i])
+            ok = ok and one is not None and near(one.reshape(2), rs[:, i], nan_ok=True)     # a constant frame: NaN in both
         if not ok:
             bad("stack:correlation_centroid:rank3", "correlation_centroid of a stack differs from the frames alone (%dx%d, %d frames, padding %d, threshold %r)"
                 % (ny, nx, nf, pad, t), im=st.tolist(), ref=g.tolist(), padding=pad, threshold=t)
@@ -477,22 +566,88 @@ def oracle(chk, quick):
             bad("corr:displacement:anybox:" + cls, "correlation_centroid of a %dx%d image (content box %dx%d) displaced by (dy=%d,dx=%d) from its reference, padding=%d, threshold=%r: %s, expected centre (%d,%d) + s = %s"
                 % (ny, nx, wy, wx, sy, sx, pad, t, e or r.ravel().tolist(), nx // 2, ny // 2, want.ravel().tolist()), ref=ref.tolist(), s=[sy, sx], padding=pad, threshold=t)
 
+    # ---------------- 7. an image is its pixel values: the same values handed over in another memory layout (Fortran order, a
+    # transposed view, reversed / strided views, a stack whose frame axis is the fastest one) are the same image — the stack
+    # clause with the stack and its frames in different layouts, the scale clause with c = 1
+    for it in range(40 if quick else 600):
+        ny, nx = rng.randint(2, nmax), rng.randint(2, nmax)
+        lead = rng.choice([(), (), (2,), (3,), (2, 2)])
+        t = rng.choice(THRESHOLDS)
+        f, k = bp_fraction(rng, ny * nx)
+        dt = rng.choice(DTYPES)
+        for _ in range(50):
+            st = gen_stack(rng, nprng, lead, ny, nx)
+            if bp_defined(st, k):
+                break
+        else:
+            continue
+        st = st.astype(dt)
+        qf = nprng.integers(0, 32, size=lead + (2, 2)).astype(float)
+        g = gen_image(rng, nprng, ny, nx).astype(dt if dt != "float32" else "float64")
+        ci = st.reshape((-1, ny, nx))[:3].astype(g.dtype)          # correlation_centroid takes (y, x) or (t, y, x)
+        if not lead:
+            ci = ci[0]
+        pad = rng.choice([1, 2])
+        jobs = [("centre_of_gravity", st, lambda a: C.centre_of_gravity(a, threshold=t)),
+                ("brightest_pixel", st, lambda a: C.brightest_pixel(a, f)),
+                ("quadCell", qf.astype(dt), lambda a: C.quadCell(a)),
+                ("correlation_centroid", ci, lambda a: C.correlation_centroid(a, numpy.asfortranarray(g) if not a.flags.c_contiguous else g, threshold=t, padding=pad))]
+        chk.oracle_cases += 1
+        chk.count("oracle:layout:" + rk(lead) + dk(dt))
+        chk.case(("layout", ny, nx, lead, t, k, dt, pad), sample={"clause": "memory layout", "shape": list(lead) + [ny, nx], "threshold": t, "fraction": f, "dtype": dt} if it < 1 else None)
+        for name, arr, fn in jobs:
+            arr = numpy.ascontiguousarray(arr)
+            base, e = call_raw(fn, arr.copy())
+            if base is None:
+                bad("layout:%s:C" % name, "%s raised %s on a C-ordered %s array of shape %s" % (name, e, arr.dtype, arr.shape), fn=name, img=arr.tolist(), threshold=t, fraction=f, dtype=str(arr.dtype))
+                continue
+            for lname, view in layouts(arr):
+                r, e = call_raw(fn, view)
+                if not near(r, base, kind="layout", nan_ok=True):
+                    bad("layout:%s:%s" % (name, lname), "%s of the same %s pixel values (shape %s) in %s layout (strides %s) = %s, C-ordered copy: %s (threshold %r, fraction %r = %d px, padding %d)"
+                        % (name, arr.dtype, arr.shape, lname, view.strides, e or r.ravel()[:4].tolist(), base.ravel()[:4].tolist(), t, f, k, pad),
+                        fn=name, img=arr.tolist(), layout=lname, threshold=t, fraction=f, padding=pad, dtype=str(arr.dtype))
+                if not numpy.array_equal(view, arr):
+                    bad("inplace:%s:%s" % (name, lname), "%s modified its %s-layout argument" % (name, lname), fn=name, img=arr.tolist(), layout=lname)
+    if worst:
+        chk.notes.append("largest observed |error|/(1+|expected|) among passing comparisons, per kind: "
+                         + ", ".join("%s %.2g" % kv for kv in sorted(worst.items())))
+
 
 def run(chk):
     quick = chk.tier == "quick"
-    chk.rule = ("correspondence: Lean model at binary64 vs centroiders.* — bit-exact for centre_of_gravity (2-D and N-D paths, ranks 2-4, "
-                "thresholds k/8, min_threshold dyadic), brightest_pixel, quadCell on integer-valued images of size <= 12x12; 1e-9*scale for "
-                "cross_correlate / correlation_centroid (FFT vs naive DFT), sizes <= 8, padding <= 3; oracle: every clause of the property on the "
-                "real code with private copies (abs tol 1e-9 px), plus argument purity; distinct = distinct (clause, sizes, parameters)")
+    chk.rule = ("correspondence: Lean model at binary64 vs centroiders.* — bit-exact for centre_of_gravity (2-D path, and the N-D path "
+                "modelled on the flat C-ordered buffer, ranks 3-4, thresholds k/8, min_threshold dyadic), brightest_pixel (pixel counts "
+                "from exact and from general fractions), quadCell on integer-valued images of size <= 12x12 handed to the real code as "
+                "float64 / uint8 / uint16 / int32 / float32 arrays; 1e-9*scale for cross_correlate / correlation_centroid (FFT vs naive "
+                "DFT), sizes <= 8, padding <= 3; oracle: every clause of the property on the real code (tolerance 1e-9*(1+|expected|) px; "
+                "1e-4 when the compared image is binary32), over array dtypes, scale factors 1e-16..1e16, single pixels of value "
+                "1e-20..1e12, elongated frames, and the same pixel values in Fortran / transposed / reversed / strided / frame-axis-last "
+                "memory layouts; plus argument purity; distinct = distinct (clause, sizes, parameters, dtype)")
     chk.assumptions = [
         "numpy.fft.fft2/ifft2 are the nested naive DFT sums and numpy.sort is an ascending sort (checked through the correspondence)",
         "binary64 rounding is not modelled (exact comparison only where the arithmetic is exact)",
+        "stack = frames: the four stack_eq_frames_* theorems are true by construction (cogN/bpN/quadCellN/corrCentroidN are defined "
+        "as 'the 2-D expression for frame i', their proofs are rfl). The clause rests on (a) flat_eq_frames_*: the N-D code's own "
+        "index arithmetic on one C-ordered buffer (axis reductions, thres[..., None, None], numpy.indices broadcast, "
+        "reshape-sort-[..., -k], .sum(-2), (im.T - im.min((1,2))).T) gives frame i the 2-D answer — proved; (b) the bit-exact tie of "
+        "those flat definitions to the real N-D code on sampled stacks (that numpy's reductions/broadcasting ARE that index "
+        "arithmetic is sampled, not proved); (c) the oracle's stack-vs-frame comparison",
+        "memory layout and dtype are outside the model (an image is a function of pixel indices over a field): that the real code "
+        "gives the same answer for the same pixel values in uint8/uint16/int32/float32 arrays and in non-C-contiguous layouts is "
+        "only sampled by the oracle (unsigned wrap-around was a genuine defect: fixes/C15-unsigned-dtype.diff); binary32 images "
+        "are compared at 1e-4 because c*img is rounded to 24 bits before the centroider sees it; correlation_centroid on binary32 "
+        "images is not exercised (numpy.fft transforms them in single precision)",
         "correlation displacement (corr_displacement_of_roll) is proved for im = numpy.roll(ref, s) with the content of ref (pixels "
         "above its minimum) in a box that stays inside the frame and lags s ± (w-1) inside [-(P//2), P - P//2 - 1] (automatic for "
         "padding >= 2); for padding 1 displacements outside that lag window are outside the theorem (the correlation wraps there) and "
         "are not drawn by the oracle either",
         "quadCell is read as a difference SIGNAL (own clause); its scale law proved is homogeneity of degree 1, not invariance",
-        "brightest_pixel: int(round(threshold*nx*ny)) is computed by the harness, the model takes the pixel count k",
+        "brightest_pixel: int(round(threshold*nx*ny)) is computed by the harness, the model takes the pixel count k; the model "
+        "mirrors the code only for 1 <= k <= ny*nx (kthLargest_outside_domain: k = 0 reads numpy's smallest element but the model's "
+        "default 0, k > ny*nx raises IndexError in numpy); the driver rejects and the harness never draws other k",
+        "the inplace:* and history:* oracle keys (argument purity, no state between calls) go beyond the text of C15 — they are "
+        "C20's subject and are kept here only because the stack-vs-frames comparison reuses its input arrays",
     ]
     chk.build_and_audit("AoVerif.Props.C15", "AoVerif.Props.C15", REQUIRED)
     try:
